@@ -267,8 +267,7 @@ def r4_mode(ctx: Ctx) -> None:
             ok = 'param:match_mode' in at or 'key:config:rule_mode' in at or any(x.startswith('key:') and x.endswith(':rule_mode') for x in at)
             ctx.check(ok, 'C09.R4', f, f'mode-arg:{nm}', f'{nm}(…, match_mode={src(a)})',
                       f'{src(call)[:70]!r}: match_mode derives from {sorted(x for x in at if x.startswith(("const:", "param:", "key:")))}, not from the rule_mode setting', call)
-    if n < 10:
-        raise AnalysisError(f'C09.R4: only {n} rule/transform load sites found')
+    ctx.need(not (n < 10), f'C09.R4: only {n} rule/transform load sites found')
     # the engine compares the stored mode with the literal
     me = proj.func('merchant_engine.MerchantEngine.match')
     tests = [nn for nn in ast.walk(me.node) if isinstance(nn, ast.Compare) and src(nn.left) == 'self.match_mode']
